@@ -257,3 +257,21 @@ Definition run (pl : plans) (st : cstate) (rs : list request) : cstate :=
 
 Definition request_ok (r : request) : Prop :=
   match r with RCreate _ _ => True | RInsert _ _ n failed => 0 <= failed end.
+
+(* ---- checker for what the shards of a live node hold after an accepted insert (Run_C15.CLive) ---- *)
+Open Scope N_scope.
+(* every shard holds a contiguous range of the id-sorted batch; together the ranges are [0,n) with nothing twice *)
+Fixpoint contig_from (a : N) (l : list N) : bool :=
+  match l with
+  | [] => true
+  | x :: r => (x =? a)%N && contig_from (a + 1) r
+  end.
+Definition contig_b (l : list N) : bool :=
+  match l with [] => true | x :: _ => contig_from x l end.
+Fixpoint count_n (i : N) (l : list N) : nat :=
+  match l with [] => O | x :: r => ((if (x =? i)%N then 1 else 0) + count_n i r)%nat end.
+Definition once_each_b (n : nat) (l : list N) : bool :=
+  (length l =? n)%nat && forallb (fun i => (count_n (N.of_nat i) l =? 1)%nat) (seq 0 n).
+Definition live_ranges_b (n : nat) (stored : list (list N)) : bool :=
+  forallb contig_b stored && once_each_b n (concat stored).
+Close Scope N_scope.
